@@ -282,6 +282,9 @@ func assignedErrName(c *core.Ctx, call *ssa.Call) string {
 
 // checkErrKeep arms ERR-KEEP on the given packages.
 func checkErrKeep(c *core.Ctx, l *core.Ledger, rule string, rels []string) {
+	if !strings.Contains(l.Explanation, "(ERR-SENSE)") {
+		l.Explanation += " Error discipline on these packages: (ERR-SENSE) no nil test of a call-produced error is inverted — where the failure is not dealt with on the non-nil edge, the error is neither returned nor otherwise used on the nil edge; (ERR-USED) the error result of every call is compared, returned, passed on or stored in code that can run (deferred Close, reads whose byte count is compared, and a frozen list of discards excepted); (OK-SENSE) the value of a failed comma-ok assertion is not dereferenced where ok is false."
+	}
 	// the companion rule on the same packages: the sense of an error test is not inverted
 	checkErrSense(c, l, "ERR-SENSE", rels)
 	checkErrUsed(c, l, "ERR-USED", rels)
